@@ -934,11 +934,10 @@ restore_ownership (void *data)
     {
       _dbus_assert (d->hash_entry != NULL);
       bus_service_relink (d->service, d->hash_entry);
+      d->hash_entry = NULL; /* now owned by the hash table */
     }
-  else
-    {
-      _dbus_assert (d->hash_entry == NULL);
-    }
+  /* else the service never left the hash table: the preallocated entry
+   * is not needed and is freed by free_ownership_restore_data() */
   
   /* We don't need to send messages notifying of these
    * changes, since we're reverting something that was
@@ -963,7 +962,6 @@ restore_ownership (void *data)
    */
   bus_connection_add_owned_service_link (d->owner->conn, d->service_link);
   
-  d->hash_entry = NULL;
   d->service_link = NULL;
   d->owner_link = NULL;
 }
